@@ -329,7 +329,8 @@ ForgetBad(pre, a, e) ==
         x    == StepOf(pre, a, e, DeadSt)
         ys   == e.ret.seq
         yielded == ToSet(ys) \ {0}
-        rest == SelectSeq(pre.ord, LAMBDA en : en.k \notin yielded)
+        \* neither yielded nor passed over by an nth / nth_back (those were dropped)
+        rest == IterRest(pre.ord, a.w)
     IN
        {<<"C17", "yield_seq">> : z \in IF ys = IterYields(pre.ord, a.w) THEN {} ELSE {1}}
     \cup {<<"C17", "WellFormed">> : z \in IF ~post.alive \/ WellFormed(e.st) THEN {} ELSE {1}}
